@@ -82,7 +82,7 @@ fn main() {
     };
     // Panics of the subject are caught per case where the property is about totality; anything
     // else that panics is the harness itself -> machinery exit code.
-    watch::start(prop, std::time::Duration::from_secs(if tier == Tier::Thorough { 300 } else { 90 }), matches!(prop, "C02" | "C03"));
+    watch::start(prop, std::time::Duration::from_secs(if prop == "C02" { 20 } else if tier == Tier::Thorough { 300 } else { 90 }), matches!(prop, "C02" | "C03"));
     let ctx = Ctx { tier, replay };
     let level = checks::level_of(prop);
     let mut rep = Report::new(prop, tier, level);
